@@ -90,6 +90,8 @@ type Exec struct {
 	Data    any      // harness scratch
 	atomic  int
 	eager   []func()
+	inPred  int
+	quiet   bool // not exploring: default choice everywhere, no choice points recorded
 }
 
 type Options struct {
@@ -99,6 +101,10 @@ type Options struct {
 	SelectDev    bool                   // allow non-first ready select arm (cost 1)
 	KeysDev      bool                   // allow non-sorted map orders (cost 1)
 	Filter       func(site string) bool // pre-emptive alternatives only at these sites (nil: everywhere)
+	// DelayBound: every non-default scheduling choice costs one deviation, also when the
+	// running thread blocked or finished (delay-bounded scheduling relative to the
+	// deterministic default scheduler: keep running, else lowest thread id).
+	DelayBound bool
 	// FreeSwitch: switching away from a runnable thread parked at such a point costs nothing
 	// (environment timing: informer lag, hook duration), all alternatives are explored.
 	FreeSwitch   func(kind, site string) bool
@@ -212,7 +218,7 @@ func (x *Exec) end(reason string) {
 // do and under which condition it can proceed, lets the scheduler pick who runs next and
 // returns once it has been picked with its condition true.
 func (x *Exec) wait(kind, st string, enabled func() bool) {
-	if x.killing.Load() {
+	if x.killing.Load() || x.inPred > 0 {
 		return
 	}
 	t := x.cur
@@ -230,9 +236,11 @@ func (x *Exec) schedule(from *thread) {
 			x.park(from)
 			return
 		}
+		x.inPred++
 		for _, f := range x.eager {
 			f()
 		}
+		x.inPred--
 		if x.Steps >= x.opts.MaxSteps {
 			x.end("steps")
 			x.park(from)
@@ -240,6 +248,9 @@ func (x *Exec) schedule(from *thread) {
 		}
 		var list []*thread
 		fromEnabled := false
+		// guards are evaluated in observation mode: instrumented code they call (e.g. a
+		// harness condition reading a queue) passes through locks without scheduling
+		x.inPred++
 		if !from.done && from.pend != nil && (from.pend.enabled == nil || from.pend.enabled()) {
 			list = append(list, from)
 			fromEnabled = true
@@ -252,6 +263,7 @@ func (x *Exec) schedule(from *thread) {
 				list = append(list, t)
 			}
 		}
+		x.inPred--
 		haveTimer := x.nextDeadline() >= 0
 		if len(list) == 0 {
 			if haveTimer {
@@ -274,12 +286,13 @@ func (x *Exec) schedule(from *thread) {
 			x.park(from)
 			return
 		}
-		if x.atomic > 0 && fromEnabled {
-			// harness set-up section: the running thread keeps the processor
+		if (x.atomic > 0 && fromEnabled) || x.quiet {
+			// harness set-up section: the running thread keeps the processor;
+			// quiet phase: the deterministic default scheduler runs
 			list = list[:1]
 		}
 		n := len(list)
-		clockAlt := x.opts.ClockDev && haveTimer && x.atomic == 0
+		clockAlt := x.opts.ClockDev && haveTimer && x.atomic == 0 && !x.quiet
 		if clockAlt {
 			n++
 		}
@@ -294,7 +307,7 @@ func (x *Exec) schedule(from *thread) {
 				}
 			}
 			if n > 1 {
-				costly := preempt || (clockAlt && len(list) == 1)
+				costly := preempt || (clockAlt && len(list) == 1) || x.opts.DelayBound
 				if preempt && x.opts.FreeSwitch != nil && x.opts.FreeSwitch(from.pend.kind, from.pend.site) {
 					costly = false
 				}
@@ -332,6 +345,9 @@ func (x *Exec) park(t *thread) {
 // choose records a choice point with n alternatives and returns the one to take.
 func (x *Exec) choose(n int, kind, st string, costly bool, tid int) int {
 	if n <= 1 {
+		return 0
+	}
+	if x.quiet && kind != "choose" {
 		return 0
 	}
 	i := len(x.Choices)
@@ -536,6 +552,8 @@ func WaitFor(what string, timeout time.Duration, cond func() bool) bool {
 	tm := x.addTimer(timeout, 0, nil, nil)
 	x.wait("waitfor:"+what, what, func() bool { return cond() || x.now >= deadline })
 	tm.stopped = true
+	x.inPred++
+	defer func() { x.inPred-- }()
 	return cond()
 }
 
@@ -554,7 +572,10 @@ func Int64N(n int64) int64 {
 	if x == nil || n <= 1 {
 		return 0
 	}
-	if Choose(2, "rand") == 1 {
+	if x.killing.Load() {
+		return 0
+	}
+	if x.choose(2, "rand", "rand", false, x.cur.id) == 1 {
 		return n - 1
 	}
 	return 0
@@ -674,5 +695,21 @@ func Atomic(f func()) {
 func Eager(f func()) {
 	if x := active.Load(); x != nil {
 		x.eager = append(x.eager, f)
+	}
+}
+
+// Observing reports that a guard / eager hook is being evaluated: shim operations must not
+// change lock state and must not schedule.
+func Observing() bool {
+	x := active.Load()
+	return x != nil && x.inPred > 0
+}
+
+// Exploring switches exploration on or off for the following part of the execution. While
+// off, the deterministic default scheduler runs and no choice points are recorded (used to
+// get through phases that another check explores, e.g. start-up).
+func Exploring(on bool) {
+	if x := active.Load(); x != nil {
+		x.quiet = !on
 	}
 }
